@@ -50,7 +50,7 @@ func mgammaDirected() []xkPoint {
 	var l []xkPoint
 	for _, k := range []int{1, 2, 3, 4, 5, 8, 13, 20, 50} {
 		lo := float64(k-1) / 2
-		for _, d := range []float64{1e-300, 1e-15, 1e-8, 1e-3, 0.25, 0.5, 1, 1.5, 2, 2.5, 3.75, 10, 30.5, 100, 160, 171, 171.7, 180, 1e3, 1e6, 1e15, 1e300} {
+		for _, d := range []float64{1e-300, 1e-15, 1e-8, 8.212587580675054e-06, 1e-3, 0.25, 0.5, 1, 1.5, 2, 2.5, 3.75, 10, 30.5, 100, 160, 171, 171.7, 180, 1e3, 1e6, 1e15, 1e300} {
 			l = append(l, xkPoint{lo + d, k})
 		}
 	}
